@@ -72,9 +72,13 @@ class SimNet:
         if h.state == "flaky" and peek:
             return "flaky"
         if h.state == "flaky":
-            # every other connection attempt to this host is refused (a connection that comes and goes)
+            # a connection that comes and goes: each connection attempt is refused or accepted following a
+            # pseudo-random pattern that is a pure function of (flaky_seed, attempt number); seed 0 = strict alternation
             h.flaky_count = getattr(h, "flaky_count", 0) + 1
-            return "refuse" if h.flaky_count % 2 == 1 else "up"
+            fs = getattr(h, "flaky_seed", 0)
+            if not fs:
+                return "refuse" if h.flaky_count % 2 == 1 else "up"
+            return "refuse" if seeds.H("flaky", fs, h.flaky_count) % 2 else "up"
         return h.state
 
     # ---- installation ----
@@ -180,6 +184,8 @@ class SimNet:
             h.etags[ek] = '"' + hashlib.md5(blob).hexdigest() + '"'
         etag = h.etags[ek]
         base = {"etag": etag, "accept-ranges": "bytes"}
+        if getattr(h, "no_etag", False):
+            base.pop("etag")
         rng = headers.get("Range") or headers.get("range")
         if rng is None:
             return 200, "OK", dict(base, **{"content-length": str(len(blob))}), blob
